@@ -423,11 +423,23 @@ def gen_cases(rng, tier):
 	for _ in range(8000 if big else 900):
 		bd = _boundary(rng)
 		d = b'--' + bd
-		out = b''.join(rng.choice(toks + [d, d, d + b'\r\n', d]) for _ in range(rng.randint(0, 10)))
-		if rng.random() < 0.5:
-			out += d + rng.choice([b'--', b'--\r\n', b'--\r\n', b'-', b'--\r\n '])
-		if rng.random() < 0.4:
-			out = d + b'\r\n' + out
+		if rng.random() < 0.6:
+			# a syntactically valid body (written here, not by the implementation), then 0-3 small mutations
+			out = b''
+			for hs, content in _parts(rng, bd):
+				block = b''.join(k.encode() + rng.choice([b': ', b':', b':  ']) + bytes.fromhex(v) + b'\r\n' for k, v in hs)
+				if rng.random() < 0.1 and hs:
+					block = block[:-2] + b'\r\n folded\r\n'
+				out += d + b'\r\n' + block + b'\r\n' + bytes.fromhex(content) + b'\r\n'
+			out += d + rng.choice([b'--\r\n', b'--\r\n', b'--'])
+			if rng.random() < 0.6:
+				out = _mutate(rng, out)
+		else:
+			out = b''.join(rng.choice(toks + [d, d, d + b'\r\n', d]) for _ in range(rng.randint(0, 10)))
+			if rng.random() < 0.5:
+				out += d + rng.choice([b'--', b'--\r\n', b'--\r\n', b'-', b'--\r\n '])
+			if rng.random() < 0.4:
+				out = d + b'\r\n' + out
 		cases.append({'k': 'mp_dec', 'digest': rng.random() < 0.15, 'bd': bd.hex(), 'd': out.hex()})
 	for c in range(256):
 		cases.append({'k': 'boundary', 'bd': '%02x' % c})
@@ -443,9 +455,16 @@ def gen_cases(rng, tier):
 	lines = [b'GET / HTTP/1.1', b'POST /a?b HTTP/1.0', b'HTTP/1.1 200 OK', b'HTTP/1.0 404 Not Found', b'GET /', b'FOO', b'', b'HTTP/1.1 abc', b'GET //x HTTP/1.1', b'get / HTTP/1.1', b'GET / HTTP/3.0']
 	htoks = [b'\r\n', b'\r\n', b'\r\n\r\n', b'A: b', b'Host: x', b'nocolon', b':', b' ', b'x', b'\n', b'\xff', b' cont']
 	for _ in range(5000 if big else 600):
-		out = rng.choice(lines) + b''.join(rng.choice(htoks) for _ in range(rng.randint(0, 8)))
-		if rng.random() < 0.2:
-			out = _mutate(rng, out)
+		if rng.random() < 0.6:
+			hs = _headers(rng, True)
+			block = b''.join(k.encode() + rng.choice([b': ', b':', b':  ']) + bytes.fromhex(v) + b'\r\n' for k, v in hs)
+			out = rng.choice(lines[:4] + lines) + b'\r\n' + block + b'\r\n' + rng.choice([b'', b'body', b'\r\n\r\nx', b'\x00\xff'])
+			if rng.random() < 0.5:
+				out = _mutate(rng, out)
+		else:
+			out = rng.choice(lines) + b''.join(rng.choice(htoks) for _ in range(rng.randint(0, 8)))
+			if rng.random() < 0.2:
+				out = _mutate(rng, out)
 		cases.append({'k': 'http_dec', 'd': out.hex()})
 	return cases
 
@@ -618,7 +637,9 @@ def observe(c):
 			b2 = Body(enc)
 			b2.mimetype = bytes(b.mimetype)
 			back = b2.decode()
-			return {'enc': enc.hex(), 'expect_enc': c['t'].encode(c['cs'] or 'UTF-8').hex(), 'back': _jcanon(back), 'orig': _jcanon(c['t']), 'str': _jcanon(str(b2))}
+			codec = lookup('text/plain')
+			direct = codec.decode(codec.encode(c['t'], c['cs']), c['cs'])
+			return {'enc': enc.hex(), 'expect_enc': c['t'].encode(c['cs'] or 'UTF-8').hex(), 'back': _jcanon(back), 'orig': _jcanon(c['t']), 'str': _jcanon(str(b2)), 'direct': _jcanon(direct)}
 		if k == 'form_rt':
 			b = Body()
 			b.mimetype = 'application/x-www-form-urlencoded' if c['cs'] is None else 'application/x-www-form-urlencoded; charset=%s' % c['cs']
@@ -631,7 +652,12 @@ def observe(c):
 			b2 = Body(enc)
 			b2.mimetype = bytes(b.mimetype)
 			back = b2.decode()
-			return {'enc': enc.hex(), 'back': [list(p) for p in back], 'type': type(back).__name__}
+			codec = lookup('application/x-www-form-urlencoded')
+			try:
+				direct = [list(p) for p in codec.decode(codec.encode(ps, c['cs']), c['cs'])]
+			except UnicodeError:
+				direct = 'unicode'
+			return {'enc': enc.hex(), 'back': [list(p) for p in back], 'type': type(back).__name__, 'direct': direct}
 		if k == 'hcompose':
 			from httoop import Headers
 			from httoop.header.element import HEADER, HeaderElement
@@ -792,6 +818,13 @@ def _is_escape(o):
 
 
 def coq_case(c, o):
+	t = _coq_case(c, o)
+	if isinstance(t, str) and len(t) > 90000:
+		return None    # literal too large for one vm_compute (stack): the case stays oracle-only
+	return t
+
+
+def _coq_case(c, o):
 	k = c['k']
 	if 'skip' in o or 'harness_exception' in o:
 		return None
@@ -897,10 +930,10 @@ def _nonascii(d):
 def _coding_class(c):
 	"""input class of a content-coding case, used as the leading part of a failure text"""
 	d = bytes.fromhex(c['d'])
-	if _nonascii(d) or c.get('cs') not in ('UTF-8', 'ISO8859-1', 'ascii'):
-		return 'content-coded body with an octet >= 0x80 or a charset that is not ASCII-transparent is not returned as sent'
 	if c['c'] == ZL and c['k'] == 'wire' and (len(d) == 0 or len(d) > 4096):
 		return 'deflate-coded body that is empty or longer than one 4096-octet piece is not returned as sent through the wire'
+	if _nonascii(d) or c.get('cs') not in ('UTF-8', 'ISO8859-1', 'ascii'):
+		return 'content-coded body with an octet >= 0x80 or a charset that is not ASCII-transparent is not returned as sent'
 	return '%s %s round trip' % (c['c'], c['k'])
 
 
@@ -966,14 +999,14 @@ def oracle(c, o):
 			return 'text/plain round trip raised %s' % o['err']
 		if o['enc'] != o['expect_enc']:
 			return 'text/plain: encode(t) is not t in the declared charset: %s' % o['enc'][:80]
-		if o['back'] != o['orig'] or o['str'] != o['orig']:
-			return 'text/plain: decode(encode(t)) != t: %s -> %r' % (o['enc'][:80], o['back'])
+		if o['back'] != o['orig'] or o['str'] != o['orig'] or o['direct'] != o['orig']:
+			return 'text/plain: decode(encode(t)) != t: %s -> %r / %r' % (o['enc'][:80], o['back'], o['direct'])
 		return None
 	if k == 'form_rt':
 		if 'err' in o:
 			return 'form round trip raised %s' % o['err']
-		if o['back'] != [list(p) for p in c['ps']]:
-			return 'form: decode(encode(pairs)) != pairs: %s -> %r' % (o['enc'], o['back'])
+		if o['back'] != [list(p) for p in c['ps']] or o['direct'] != [list(p) for p in c['ps']]:
+			return 'form: decode(encode(pairs)) != pairs: %s -> %r / %r' % (o['enc'], o['back'], o['direct'])
 		return None
 	if k == 'mp_rt':
 		if 'want' not in o:
